@@ -37,6 +37,7 @@ type c10 struct {
 	w               []int
 
 	updated, recheck bool
+	layeredElem      []byte
 }
 
 func (s *c10) Start(r *kit.Rng, cfg map[string]int64) {
@@ -95,7 +96,55 @@ func (s *c10) element(r *kit.Rng) []byte {
 // outputs pay to wallet elements or strangers; inputs spend outputs of
 // earlier transactions of the block (chains, forks, diamonds) or outside
 // outpoints.
+// genLayered draws a dense layered spend graph: every transaction of a layer
+// spends one output of EVERY transaction of the layer above, and every output
+// pays to a watched element, so that a backwards delivery makes the scan
+// re-examine dependants along every path (width^layers of them).
+func (s *c10) genLayered(r *kit.Rng) []*wire.MsgTx {
+	width, layers := r.Range(2, 3), r.Range(4, 10)
+	if width == 3 && layers > 9 {
+		layers = 9
+	}
+	var txs []*wire.MsgTx
+	var prev []*wire.MsgTx
+	for l := 0; l < layers; l++ {
+		var cur []*wire.MsgTx
+		for w := 0; w < width; w++ {
+			var ins []txIn
+			if l == 0 {
+				var in txIn
+				copy(in.prev[:], r.Bytes(32))
+				ins = append(ins, in)
+			}
+			for _, p := range prev {
+				ins = append(ins, txIn{prev: p.TxHash(), index: uint32(w)})
+			}
+			var outs [][]byte
+			for k := 0; k < width; k++ {
+				outs = append(outs, makeScript(skP2PKH, s.pool[0], nil))
+			}
+			if l == 0 {
+				outs = append(outs, makeScript(skP2PKH, s.pool[0], nil)) // a spare output for the late spender
+			}
+			tx := buildTx(1, ins, outs, uint32(l*16+w))
+			cur = append(cur, tx)
+			txs = append(txs, tx)
+		}
+		prev = cur
+	}
+	// one more transaction that pays nobody we watch and only spends the spare
+	// output of the OLDEST transaction: delivered first (reverse order), it is
+	// relevant only once the very last transaction of the block has matched
+	txs = append(txs, buildTx(1, []txIn{{prev: txs[0].TxHash(), index: uint32(width)}}, [][]byte{{0x51}}, 999))
+	s.layeredElem = scriptElement(skP2PKH, s.pool[0])
+	s.st.Probe("dense-layered-spend-graph")
+	return txs
+}
+
 func (s *c10) genBlock(r *kit.Rng) []*wire.MsgTx {
+	if r.Chance(1, 60) {
+		return s.genLayered(r)
+	}
 	n := r.Range(1, 12)
 	if r.Chance(1, 2) {
 		n = r.Range(2, 6)
@@ -285,6 +334,14 @@ func (s *c10) Gen(r *kit.Rng) (kit.Op, bool) {
 	default:
 		if len(s.lastTxs) == 0 || r.Chance(1, 2) {
 			s.lastTxs = s.genBlock(r)
+		}
+		if s.layeredElem != nil {
+			// the element the layered graph pays to must be watched
+			e := s.layeredElem
+			s.layeredElem = nil
+			if !s.items[string(e)] {
+				return kit.Op{K: "add", D: kit.Hex(e)}, true
+			}
 		}
 		src := s.lastTxs
 		if len(src) > 1 && r.Chance(1, 2) {
